@@ -418,6 +418,32 @@ pub fn run(cfg: &Cfg) {
             }
         }
     }
+    // ---- signatures that verified a moment ago, over other content: a block is verified (successfully), then
+    //      another block - other content - that lists the very same entries (same key ids, same signature
+    //      values). What verified over the first content is no signature over the second; with two keys and
+    //      threshold 2 likewise, and once more the first block afterwards (still fine)
+    for round in 0..(if cfg.thorough { 40 } else { 6 }) {
+        let k1 = &pool[round % pool.len()];
+        let k2 = &pool[(round + 1) % pool.len()];
+        if keyid_hex(k1.public()) == keyid_hex(k2.public()) {
+            continue;
+        }
+        let first = MetadataWrapper::Link(gen_link(&mut r, Some("step")));
+        let second = MetadataWrapper::Link(gen_link(&mut r, Some("step")));
+        if first == second {
+            continue;
+        }
+        let e1 = Entry { label: keyid_hex(k1.public()), sig: valid_sig(&first, k1), valid_under_label: true, class: "valid" };
+        let e2 = Entry { label: keyid_hex(k2.public()), sig: valid_sig(&first, k2), valid_under_label: true, class: "valid" };
+        run_case(&mut sink, &first, &[e1.clone()], 1, &[k1], "transplant/first-block");
+        run_case(&mut sink, &first, &[e1.clone(), e2.clone()], 2, &[k1, k2], "transplant/first-block");
+        let t1 = Entry { valid_under_label: false, class: "transplanted", ..e1.clone() };
+        let t2 = Entry { valid_under_label: false, class: "transplanted", ..e2.clone() };
+        run_case(&mut sink, &second, &[t1.clone()], 1, &[k1], "transplant/other-content");
+        run_case(&mut sink, &second, &[t1.clone(), t2.clone()], 2, &[k1, k2], "transplant/other-content");
+        run_case(&mut sink, &second, &[t1.clone(), t2.clone()], 1, &[k1, k2], "transplant/other-content");
+        run_case(&mut sink, &first, &[e1.clone(), e2.clone()], 2, &[k1, k2], "transplant/first-block-again");
+    }
     // ---- duplicate key id with different validity: recorded observation (outside the statement)
     let dup = vec![mk(a, true), mk(a, false)];
     let pud = vec![mk(a, false), mk(a, true)];
